@@ -179,6 +179,11 @@ def compare_snaps(a, b, allow_path_delta=None):
         bad.append(('R1', 'sys.stdout is %s, was %s' % (type(b.stdout).__name__, type(a.stdout).__name__)))
     if b.stderr is not a.stderr:
         bad.append(('R1', 'sys.stderr is %s, was %s' % (type(b.stderr).__name__, type(a.stderr).__name__)))
+    if not allow_path_delta or not (allow_path_delta[0] or allow_path_delta[1]):
+        # nobody but xdoctest touched sys.path in between: "as it was found" includes the order
+        if sorted(a.path) == sorted(b.path) and list(a.path) != list(b.path):
+            moved = [LOG.norm(x) for x, y in zip(a.path, b.path) if x != y]
+            bad.append(('R2', 'sys.path has the same entries in another order (first displaced: %s)' % moved[:2]))
     pa = sorted(a.path)
     pb = sorted(b.path)
     if allow_path_delta:
@@ -232,6 +237,8 @@ def snapshot_bindings(ns):
             try:
                 if callable(v) and hasattr(v, '__name__'):
                     out[k] = '<callable>'
+                elif type(v).__name__ == 'module':
+                    out[k] = '<module %s>' % getattr(v, '__name__', '?')
                 elif isinstance(v, list):
                     out[k] = '[' + ','.join(str(x) for x in v) + ']'
                 else:
@@ -490,6 +497,8 @@ def load_plan(scn):
             pass
         elif 'stream_write' in f:
             ST.stream_plan.setdefault((f['dt'], f['k']), {})[f['stream_write']] = f.get('exc', 'BlockingIOError')
+        elif 'stream_flush' in f:
+            ST.stream_plan.setdefault((f['dt'], f['k']), {})['flush'] = 'OSError'
         elif 'clock_jump' in f:
             pass
         else:
@@ -548,6 +557,10 @@ def execute(scn, root, count_only=False):
     write_world(files, pkgroot)
     env = scn.get('env', {})
     seams.set_environment(env.get('environ', {}), env.get('argv', ['xdsim']))
+    if env.get('pkgroot_on_path') is not None:
+        # the user already has the directory of the package on sys.path (PYTHONPATH, an
+        # editable install): xdoctest's temporary entry is then a duplicate
+        sys.path.insert(min(int(env['pkgroot_on_path']), len(sys.path)), pkgroot)
     os.walk = seams.make_walk(env.get('listing_seed', 0))
     jumps = {f['clock_jump']: f['delta'] for f in scn.get('plan', []) if 'clock_jump' in f}
     ST.vclock = seams.VClock(jumps)
